@@ -44,19 +44,21 @@ DecodeLatin1(b) == b
 DecodeCp1252(b) == [i \in 1..Len(b) |-> IF b[i] \in 128..159 THEN CP1252Hi[b[i] - 127] ELSE b[i]]
 Cp1252OK(b) == \A i \in 1..Len(b) : b[i] \in 128..159 => CP1252Hi[b[i] - 127] # -1
 IsCont(x) == x \in 128..191
-RECURSIVE Utf8From(_, _, _)
-Utf8From(b, i, acc) ==     \* acc = <<ok, code points>>
-  IF i > Len(b) THEN <<TRUE, acc>>
-  ELSE LET x == b[i] IN
-       IF x < 128 THEN Utf8From(b, i + 1, Append(acc, x))
-       ELSE IF x \in 194..223 /\ i + 1 <= Len(b) /\ IsCont(b[i + 1])
-            THEN Utf8From(b, i + 2, Append(acc, (x - 192) * 64 + (b[i + 1] - 128)))
-       ELSE IF x \in 224..239 /\ i + 2 <= Len(b) /\ IsCont(b[i + 1]) /\ IsCont(b[i + 2])
-            THEN Utf8From(b, i + 3, Append(acc, (x - 224) * 4096 + (b[i + 1] - 128) * 64 + (b[i + 2] - 128)))
-       ELSE IF x \in 240..244 /\ i + 3 <= Len(b) /\ IsCont(b[i + 1]) /\ IsCont(b[i + 2]) /\ IsCont(b[i + 3])
-            THEN Utf8From(b, i + 4, Append(acc, (x - 240) * 262144 + (b[i + 1] - 128) * 4096 + (b[i + 2] - 128) * 64 + (b[i + 3] - 128)))
-       ELSE <<FALSE, acc>>
-DecodeUtf8(b) == Utf8From(b, 1, <<>>)
+\* iterative UTF-8 decoder: need = continuation bytes still expected, cur = code point being assembled
+Utf8Step(st, x) ==
+  IF ~st.ok THEN st
+  ELSE IF st.need > 0 THEN
+       (IF IsCont(x) THEN (IF st.need = 1 THEN [st EXCEPT !.acc = Append(@, st.cur * 64 + (x - 128)), !.need = 0, !.cur = 0]
+                           ELSE [st EXCEPT !.cur = @ * 64 + (x - 128), !.need = @ - 1])
+        ELSE [st EXCEPT !.ok = FALSE])
+  ELSE IF x < 128 THEN [st EXCEPT !.acc = Append(@, x)]
+  ELSE IF x \in 194..223 THEN [st EXCEPT !.need = 1, !.cur = x - 192]
+  ELSE IF x \in 224..239 THEN [st EXCEPT !.need = 2, !.cur = x - 224]
+  ELSE IF x \in 240..244 THEN [st EXCEPT !.need = 3, !.cur = x - 240]
+  ELSE [st EXCEPT !.ok = FALSE]
+DecodeUtf8(b) == IF \A i \in 1..Len(b) : b[i] < 128 THEN <<TRUE, b>>
+                 ELSE LET st == FoldLeft(Utf8Step, [ok |-> TRUE, acc |-> <<>>, need |-> 0, cur |-> 0], b) IN
+                      <<st.ok /\ st.need = 0, st.acc>>
 \* [ok, text]
 DecodeAs(charset, b) ==
   IF charset = T_LATIN THEN [ok |-> TRUE, text |-> b]
